@@ -1,6 +1,7 @@
 package rules
 
 import (
+	"go/types"
 	"fmt"
 	"go/ast"
 	"sort"
@@ -115,6 +116,12 @@ func Dump(repo, spec string) int {
 	fn.WriteTo(os_stdout{})
 	res := an.EnumPaths(fn, nil, nil, func(s *an.PathState) {
 		fmt.Printf("PATH %s\n  facts: %s\n", s.BlockPath(), s.FactsString())
+		for k, v := range s.Resolved {
+			fmt.Printf("   resolved %s = %s  shape=%s\n", k, v.K, newFsx(p).shapeOf(s, v, 0))
+		}
+		if len(s.Inlines) > 0 {
+			fmt.Printf("   inlined %v\n", s.Inlines)
+		}
 		for _, e := range s.Events {
 			var as []string
 			for _, a := range e.Args {
@@ -134,3 +141,179 @@ func Dump(repo, spec string) int {
 type os_stdout struct{}
 
 func (os_stdout) Write(b []byte) (int, error) { fmt.Print(string(b)); return len(b), nil }
+
+// ---- string composition, normalised ----
+
+// strPart is a literal piece or a formatted operand of a composed string.
+type strPart struct {
+	Lit  string
+	Arg  *an.Term
+	Verb string // %s %d %t
+}
+
+// strParts decomposes a string-valued term built by fmt.Sprintf(constant format, …) or by "+" concatenation
+// (with strconv.Itoa/FormatInt(…,10)/FormatUint(…,10)/FormatBool operands) into literal and operand parts.
+func strParts(t *an.Term) ([]strPart, bool) {
+	t = t.StripConv()
+	if t == nil {
+		return nil, false
+	}
+	if v, ok := t.ConstString(); ok {
+		return []strPart{{Lit: v}}, true
+	}
+	if t.Op == "binop" && t.Aux == "+" {
+		l, ok1 := strParts(t.Args[0])
+		r, ok2 := strParts(t.Args[1])
+		if !ok1 || !ok2 {
+			return nil, false
+		}
+		return mergeLits(append(l, r...)), true
+	}
+	if c, _ := t.CallOf(); c != nil && t.Op == "call" {
+		switch c.Aux {
+		case "fmt.Sprintf":
+			return fmtParts(c.Args[0], c.Args[1])
+		case "strconv.Itoa":
+			return []strPart{{Arg: stripNum(c.Args[0]), Verb: "%d"}}, true
+		case "strconv.FormatInt", "strconv.FormatUint":
+			if len(c.Args) == 2 && c.Args[1].IsConst("10") {
+				return []strPart{{Arg: stripNum(c.Args[0]), Verb: "%d"}}, true
+			}
+		case "strconv.FormatBool":
+			return []strPart{{Arg: c.Args[0], Verb: "%t"}}, true
+		}
+	}
+	return []strPart{{Arg: t, Verb: "%s"}}, true
+}
+
+func fmtParts(format, va *an.Term) ([]strPart, bool) {
+	f, ok := format.ConstString()
+	if !ok || va == nil {
+		return nil, false
+	}
+	var args []*an.Term
+	if va.Op == "varargs" {
+		args = va.Args
+	} else if !va.IsConst("nil") {
+		return nil, false
+	}
+	var out []strPart
+	lit := ""
+	k := 0
+	for i := 0; i < len(f); i++ {
+		if f[i] != '%' {
+			lit += string(f[i])
+			continue
+		}
+		if i+1 >= len(f) {
+			return nil, false
+		}
+		i++
+		switch f[i] {
+		case '%':
+			lit += "%"
+		case 's', 'd', 't', 'v':
+			if k >= len(args) {
+				return nil, false
+			}
+			if lit != "" {
+				out = append(out, strPart{Lit: lit})
+				lit = ""
+			}
+			verb := "%" + string(f[i])
+			a := args[k]
+			if verb == "%v" {
+				verb = verbOfType(a)
+			}
+			if verb == "%d" {
+				a = stripNum(a)
+			}
+			out = append(out, strPart{Arg: a, Verb: verb})
+			k++
+		default:
+			return nil, false
+		}
+	}
+	if lit != "" {
+		out = append(out, strPart{Lit: lit})
+	}
+	if k != len(args) {
+		return nil, false
+	}
+	return out, true
+}
+
+func verbOfType(a *an.Term) string {
+	if a != nil && a.V != nil {
+		if b, ok := a.V.Type().Underlying().(*types.Basic); ok {
+			switch {
+			case b.Info()&types.IsBoolean != 0:
+				return "%t"
+			case b.Info()&types.IsInteger != 0:
+				return "%d"
+			}
+		}
+	}
+	return "%s"
+}
+
+func mergeLits(ps []strPart) []strPart {
+	var out []strPart
+	for _, p := range ps {
+		if p.Arg == nil && len(out) > 0 && out[len(out)-1].Arg == nil {
+			out[len(out)-1].Lit += p.Lit
+			continue
+		}
+		out = append(out, p)
+	}
+	return out
+}
+
+// fmtArgs: t composes exactly the given format (verbs %s %d %t; integers also match %s-less forms); returns its operands.
+func fmtArgs(t *an.Term, format string) ([]*an.Term, bool) {
+	ps, ok := strParts(t)
+	if !ok {
+		return nil, false
+	}
+	return matchParts(ps, format)
+}
+
+func matchParts(ps []strPart, format string) ([]*an.Term, bool) {
+	got := ""
+	var args []*an.Term
+	for _, p := range ps {
+		if p.Arg == nil {
+			got += strings.Replace(p.Lit, "%", "%%", -1)
+		} else {
+			got += p.Verb
+			args = append(args, p.Arg)
+		}
+	}
+	return args, got == format
+}
+
+// writtenText: the text a write-like call puts on its destination: (destination, text parts).
+func writtenText(callee string, args []*an.Term) (dst *an.Term, parts []strPart, ok bool) {
+	switch callee {
+	case "io.WriteString", "(*os.File).WriteString", "(*os.File).Write", "(*bufio.Writer).WriteString":
+		if len(args) < 2 {
+			return nil, nil, false
+		}
+		ps, ok := strParts(args[1])
+		return args[0], ps, ok
+	case "fmt.Fprintf":
+		if len(args) < 3 {
+			return nil, nil, false
+		}
+		ps, ok := fmtParts(args[1], args[2])
+		return args[0], ps, ok
+	}
+	return nil, nil, false
+}
+
+func stripNum(t *an.Term) *an.Term {
+	for t != nil && (t.Op == "numconv" || t.Op == "conv") && len(t.Args) == 1 {
+		t = t.Args[0]
+	}
+	return t
+}
